@@ -1,14 +1,770 @@
-//! Suite `addr` (stub: replaced by the owner of the suite).
+//! Suite `addr` (C16): address strings, socket activation environments and the six transports,
+//! all through the real `varlink` crate.
+//!
+//! Placeholders in case lines (so that a case is self-contained and independent of where the
+//! checkout lives): `%D` = a scratch directory under `<out>/sock`, `%P` = a TCP port on which the
+//! harness listens, `%Q` = a TCP port nobody listens on, `%A` = a unique abstract-name prefix.
+//! Observations are printed with the placeholders substituted back.
+//!
+//! Case kinds:
+//!
+//!   (parse x<address> (live (<scheme> x<target>)*) (bindable (tcp x<target>)*))
+//!       scheme = tcp | abstract | path.  The harness listens on every `live` target while the
+//!       client connects (nothing else it could reach listens), and closes them before the server
+//!       binds.  What can be bound is a fact about the environment the case runs in: every abstract
+//!       name; a filesystem path exactly when it is `%D/<name>` with <name> in [A-Za-z0-9._-]+ (the
+//!       working directory is /proc during the call, so relative paths cannot be bound); a TCP
+//!       target exactly when listed under `bindable`.
+//!       -> (parse (client <r>) (server <r>)),  r = invalid | io | (ok <scheme> x<target>)
+//!          client: `varlink_connect`, target = peer name of the returned stream;
+//!          server: `Listener::new`, target = local name of the returned listener
+//!
+//!   (actenv <fds> <pid> <names> <passed> x<address>)
+//!       fds, names = - | x<value>;  pid = - | (lit x<value>) | (self x<prefix> x<suffix>);
+//!       `passed` listening unix sockets `%D/fd3.sock`, `%D/fd4.sock`, … are inherited as 3, 4, …;
+//!       `Listener::new(address)` runs in a fresh child (`sh -c 'LISTEN_PID=<prefix>$$<suffix> exec …'`)
+//!       -> (listener invalid | io | (ok <tcp|unix> <activated> <fd|-> x<local name>))
+//!
+//!   (xport <world> (reads b<chunk>*) <dec>)
+//!       the request stream over unix path, unix path `;mode=0666`, `unix:@abstract`,
+//!       `tcp:127.0.0.1:port`, `Connection::with_activate`, `Connection::with_bridge`
+//!       -> (xport (unix <R>) (unixmode <R>) (abstract <R>) (tcp <R>) (activate <R>) (bridge <R>) <act>)
+//!          R = (out <reply>*) | (timeout) | (fail x<why>);
+//!          act = (act x<LISTEN_FDS> x<LISTEN_FDNAMES> <LISTEN_PID is the child's pid>
+//!                     <VARLINK_ADDRESS is unix:<name of fd 3>> <fd 3 is a listening unix socket, inheritable>
+//!                     <the connection's address equals VARLINK_ADDRESS>) | (noact)
+use crate::rng::Rng;
+use crate::suites::wire;
 use crate::sx::{self, Sx};
 use crate::{Case, Ctx, Suite};
+use std::io::{Read, Write};
+use std::os::unix::io::AsRawFd;
+use std::os::unix::process::CommandExt;
+use std::sync::atomic::{AtomicUsize, Ordering};
+use std::time::Duration;
+
+#[path = "addr_world.rs"]
+pub mod world;
+
+use world::*;
 
 pub struct AddrSuite;
 
-impl Suite for AddrSuite {
-    fn generate(&self, _ctx: &Ctx) -> Vec<Case> {
-        Vec::new()
+static COUNTER: AtomicUsize = AtomicUsize::new(0);
+
+pub fn fresh_dir(ctx: &Ctx, tag: &str) -> String {
+    let n = COUNTER.fetch_add(1, Ordering::SeqCst);
+    let d = format!("{}/sock/{}{}-{}", ctx.out_dir, tag, std::process::id(), n);
+    let _ = std::fs::remove_dir_all(&d);
+    std::fs::create_dir_all(&d).expect("scratch dir");
+    d
+}
+
+pub struct Subst {
+    pub dir: String,
+    pub live_port: String,
+    pub dead_port: String,
+    pub abs: String,
+}
+
+impl Subst {
+    pub fn new(ctx: &Ctx, tag: &str) -> Subst {
+        let n = COUNTER.fetch_add(1, Ordering::SeqCst);
+        Subst {
+            dir: fresh_dir(ctx, tag),
+            live_port: String::new(),
+            dead_port: format!("{}", free_port()),
+            abs: format!("vv{}x{}", std::process::id(), n),
+        }
     }
-    fn run(&self, _ctx: &Ctx, _input: &Sx) -> Sx {
-        sx::atom("stub")
+    pub fn apply(&self, s: &str) -> String {
+        s.replace("%D", &self.dir).replace("%P", &self.live_port).replace("%Q", &self.dead_port).replace("%A", &self.abs)
+    }
+    pub fn unapply(&self, s: &str) -> String {
+        let mut r = s.replace(&self.dir, "%D").replace(&self.abs, "%A");
+        if !self.live_port.is_empty() {
+            r = r.replace(&format!(":{}", self.live_port), ":%P");
+        }
+        r.replace(&format!(":{}", self.dead_port), ":%Q")
+    }
+}
+
+// ---------------------------------------------------------------------------
+// socket names
+
+fn inet_name(fd: i32, peer: bool) -> Option<String> {
+    let mut ss: libc::sockaddr_storage = unsafe { std::mem::zeroed() };
+    let mut sl = std::mem::size_of::<libc::sockaddr_storage>() as libc::socklen_t;
+    let r = unsafe {
+        if peer {
+            libc::getpeername(fd, &mut ss as *mut _ as *mut libc::sockaddr, &mut sl)
+        } else {
+            libc::getsockname(fd, &mut ss as *mut _ as *mut libc::sockaddr, &mut sl)
+        }
+    };
+    if r != 0 || ss.ss_family as i32 != libc::AF_INET {
+        return None;
+    }
+    let sin: &libc::sockaddr_in = unsafe { &*(&ss as *const _ as *const libc::sockaddr_in) };
+    let ip = u32::from_be(sin.sin_addr.s_addr);
+    Some(format!("{}.{}.{}.{}:{}", ip >> 24, (ip >> 16) & 255, (ip >> 8) & 255, ip & 255, u16::from_be(sin.sin_port)))
+}
+
+fn unix_peer_name(fd: i32) -> Option<String> {
+    let mut ss: libc::sockaddr_storage = unsafe { std::mem::zeroed() };
+    let mut sl = std::mem::size_of::<libc::sockaddr_storage>() as libc::socklen_t;
+    let r = unsafe { libc::getpeername(fd, &mut ss as *mut _ as *mut libc::sockaddr, &mut sl) };
+    if r != 0 || ss.ss_family as i32 != libc::AF_UNIX {
+        return None;
+    }
+    let su: &libc::sockaddr_un = unsafe { &*(&ss as *const _ as *const libc::sockaddr_un) };
+    let n = (sl as usize).saturating_sub(2);
+    let bytes: Vec<u8> = su.sun_path[..n.min(su.sun_path.len())].iter().map(|c| *c as u8).collect();
+    Some(if !bytes.is_empty() && bytes[0] == 0 {
+        format!("@{}", String::from_utf8_lossy(&bytes[1..]))
+    } else {
+        String::from_utf8_lossy(bytes.split(|b| *b == 0).next().unwrap_or(&[])).to_string()
+    })
+}
+
+/// (scheme, target) of a socket: its peer (client side) or its own name (server side)
+fn socket_target(fd: i32, peer: bool) -> Option<(String, String)> {
+    if let Some(n) = inet_name(fd, peer) {
+        return Some(("tcp".into(), n));
+    }
+    let n = if peer { unix_peer_name(fd)? } else { unix_name(fd) };
+    if let Some(a) = n.strip_prefix('@') {
+        Some(("abstract".into(), a.to_string()))
+    } else {
+        Some(("path".into(), n))
+    }
+}
+
+fn result_sx(sub: &Subst, r: Result<Option<(String, String)>, bool>) -> Sx {
+    match r {
+        Err(true) => sx::atom("invalid"),
+        Err(false) => sx::atom("io"),
+        Ok(None) => sx::atom("io"),
+        Ok(Some((scheme, target))) => sx::tagged("ok", vec![sx::atom(scheme), sx::xs(&sub.unapply(&target))]),
+    }
+}
+
+// ---------------------------------------------------------------------------
+// kind `parse`
+
+enum Live {
+    Tcp(std::net::TcpListener),
+    Unix(std::os::unix::net::UnixListener),
+}
+
+fn bind_abstract(name: &str) -> std::io::Result<std::os::unix::net::UnixListener> {
+    use std::os::linux::net::SocketAddrExt;
+    let a = std::os::unix::net::SocketAddr::from_abstract_name(name)?;
+    std::os::unix::net::UnixListener::bind_addr(&a)
+}
+
+fn run_parse(ctx: &Ctx, l: &[Sx]) -> Sx {
+    let mut sub = Subst::new(ctx, "p");
+    // a live TCP listener first: its port is the meaning of %P
+    let tcp = std::net::TcpListener::bind("127.0.0.1:0").expect("tcp bind");
+    sub.live_port = format!("{}", tcp.local_addr().unwrap().port());
+    let mut keep: Vec<Live> = vec![Live::Tcp(tcp)];
+    let address = sub.apply(&l[1].as_str().unwrap());
+    for e in &l[2].as_list().unwrap()[1..] {
+        let e = e.as_list().unwrap();
+        let target = sub.apply(&e[1].as_str().unwrap());
+        match e[0].as_atom().unwrap() {
+            "tcp" => {} // only 127.0.0.1:%P, already listening
+            "abstract" => keep.push(Live::Unix(bind_abstract(&target).expect("abstract bind"))),
+            "path" => keep.push(Live::Unix(std::os::unix::net::UnixListener::bind(&target).expect("path bind"))),
+            other => panic!("scheme {}", other),
+        }
+    }
+    let old_cwd = std::env::current_dir().ok();
+    let _ = std::env::set_current_dir("/proc");
+    let a1 = address.clone();
+    let client = with_watchdog(Duration::from_secs(5), move || match varlink::varlink_connect(&a1) {
+        Ok((s, back)) => {
+            if back != a1 {
+                return Ok(Some(("address-changed".to_string(), back)));
+            }
+            Ok(socket_target(s.as_raw_fd(), true))
+        }
+        Err(e) => Err(matches!(e.kind(), varlink::ErrorKind::InvalidAddress)),
+    });
+    let client_sx = match client {
+        None => sx::atom("timeout"),
+        Some(r) => result_sx(&sub, r),
+    };
+    // the live listeners must not be in the way of the server's bind
+    drop(keep);
+    let a2 = address.clone();
+    let server = with_watchdog(Duration::from_secs(5), move || match varlink::Listener::new(&a2) {
+        Ok(l) => {
+            let fd = l.as_raw_fd().unwrap_or(-1);
+            let t = socket_target(fd, false);
+            drop(l);
+            Ok(t)
+        }
+        Err(e) => Err(matches!(e.kind(), varlink::ErrorKind::InvalidAddress)),
+    });
+    let server_sx = match server {
+        None => sx::atom("timeout"),
+        Some(r) => result_sx(&sub, r),
+    };
+    if let Some(d) = old_cwd {
+        let _ = std::env::set_current_dir(d);
+    }
+    let _ = std::fs::remove_dir_all(&sub.dir);
+    sx::tagged("parse", vec![sx::tagged("client", vec![client_sx]), sx::tagged("server", vec![server_sx])])
+}
+
+// ---------------------------------------------------------------------------
+// kind `actenv`
+
+fn opt_field(s: &Sx) -> Option<String> {
+    match s {
+        Sx::Atom(a) if a == "-" => None,
+        other => other.as_str(),
+    }
+}
+
+fn shell_safe(s: &str) -> bool {
+    s.chars().all(|c| c.is_ascii_alphanumeric() || c == '+' || c == '-')
+}
+
+fn run_actenv(ctx: &Ctx, l: &[Sx]) -> Sx {
+    let sub = Subst::new(ctx, "e");
+    let fds = opt_field(&l[1]);
+    let names = opt_field(&l[3]);
+    let passed = l[4].as_usize().unwrap();
+    let address = sub.apply(&l[5].as_str().unwrap());
+    let out = format!("{}/report", sub.dir);
+    let helper = helper_path();
+
+    let mut listeners = Vec::new();
+    for i in 0..passed {
+        listeners.push(std::os::unix::net::UnixListener::bind(format!("{}/fd{}.sock", sub.dir, 3 + i)).expect("bind fdN"));
+    }
+    let raw: Vec<i32> = listeners.iter().map(|l| l.as_raw_fd()).collect();
+
+    let mut cmd;
+    match &l[2] {
+        Sx::List(p) if p[0].as_atom() == Some("self") => {
+            let pre = p[1].as_str().unwrap();
+            let suf = p[2].as_str().unwrap();
+            assert!(shell_safe(&pre) && shell_safe(&suf), "pid template not shell safe");
+            cmd = std::process::Command::new("sh");
+            cmd.arg("-c")
+                .arg(format!("LISTEN_PID={}$${} exec \"$0\" \"$@\"", pre, suf))
+                .arg(&helper)
+                .arg("listener")
+                .arg(&address)
+                .arg(&out);
+        }
+        other => {
+            cmd = std::process::Command::new(&helper);
+            cmd.arg("listener").arg(&address).arg(&out);
+            match other {
+                Sx::List(p) if p[0].as_atom() == Some("lit") => {
+                    cmd.env("LISTEN_PID", p[1].as_str().unwrap());
+                }
+                _ => {
+                    cmd.env_remove("LISTEN_PID");
+                }
+            }
+        }
+    }
+    match &fds {
+        Some(v) => {
+            cmd.env("LISTEN_FDS", v);
+        }
+        None => {
+            cmd.env_remove("LISTEN_FDS");
+        }
+    }
+    match &names {
+        Some(v) => {
+            cmd.env("LISTEN_FDNAMES", v);
+        }
+        None => {
+            cmd.env_remove("LISTEN_FDNAMES");
+        }
+    }
+    cmd.stdin(std::process::Stdio::null());
+    unsafe {
+        cmd.pre_exec(move || {
+            // park the sources high, then place them at 3, 4, …; everything else from 3 up is closed
+            let mut high = Vec::new();
+            for fd in &raw {
+                let h = libc::fcntl(*fd, libc::F_DUPFD, 200);
+                if h < 0 {
+                    return Err(std::io::Error::last_os_error());
+                }
+                high.push(h);
+            }
+            for fd in 3..200 {
+                libc::close(fd);
+            }
+            for (i, h) in high.iter().enumerate() {
+                if libc::dup2(*h, 3 + i as i32) < 0 {
+                    return Err(std::io::Error::last_os_error());
+                }
+                libc::close(*h);
+            }
+            Ok(())
+        });
+    }
+    let child = cmd.spawn().expect("spawn helper");
+    let mut guard = ChildGuard::new(child);
+    let st = guard.wait_timeout(Duration::from_secs(8));
+    let res = match st {
+        None => sx::atom("timeout"),
+        Some(_) => match std::fs::read_to_string(&out) {
+            Ok(line) => match sx::parse(&line) {
+                Some(Sx::List(r)) => match r[0].as_atom() {
+                    Some("ok") => {
+                        let mut name = sub.unapply(&r[4].as_str().unwrap_or_default());
+                        if r[1].as_atom() == Some("tcp") && r[2].as_atom() == Some("f") {
+                            name = "*".into(); // the kernel picked the port
+                        }
+                        sx::tagged("ok", vec![r[1].clone(), r[2].clone(), r[3].clone(), sx::xs(&name)])
+                    }
+                    Some(tag) => sx::atom(tag),
+                    None => sx::atom("garbled"),
+                },
+                _ => sx::atom("garbled"),
+            },
+            Err(_) => sx::atom("crashed"),
+        },
+    };
+    drop(guard);
+    drop(listeners);
+    let _ = std::fs::remove_dir_all(&sub.dir);
+    sx::tagged("listener", vec![res])
+}
+
+// ---------------------------------------------------------------------------
+// kind `xport`
+
+/// write the chunks, half-close, read everything; the split replies or what went wrong
+pub fn exchange(mut r: Box<dyn Read + Send>, mut w: Box<dyn Write + Send>, shut: Box<dyn FnOnce() + Send>, chunks: Vec<Vec<u8>>) -> Sx {
+    let reader = std::thread::spawn(move || {
+        let mut all = Vec::new();
+        let mut buf = [0u8; 8192];
+        loop {
+            match r.read(&mut buf) {
+                Ok(0) => break,
+                Ok(n) => all.extend_from_slice(&buf[..n]),
+                Err(_) => break, // a reset after the data is the same as EOF here
+            }
+        }
+        all
+    });
+    let res = with_watchdog(Duration::from_secs(8), move || {
+        for c in chunks {
+            if w.write_all(&c).is_err() {
+                break;
+            }
+            let _ = w.flush();
+        }
+        shut();
+        drop(w);
+        reader.join().unwrap_or_default()
+    });
+    match res {
+        None => sx::tagged("timeout", vec![]),
+        Some(out) => sx::tagged("out", wire::split_replies(&out)),
+    }
+}
+
+fn exchange_conn(conn: std::sync::Arc<std::sync::RwLock<varlink::Connection>>, chunks: Vec<Vec<u8>>) -> Sx {
+    let (r, w, raw) = {
+        let mut c = conn.write().unwrap();
+        let raw = c.stream.as_ref().map(|s| s.as_raw_fd()).unwrap_or(-1);
+        (c.reader.take(), c.writer.take(), raw)
+    };
+    match (r, w) {
+        (Some(r), Some(w)) => {
+            let res = exchange(
+                Box::new(r),
+                Box::new(w),
+                Box::new(move || unsafe {
+                    libc::shutdown(raw, libc::SHUT_WR);
+                }),
+                chunks,
+            );
+            drop(conn);
+            res
+        }
+        _ => sx::tagged("fail", vec![sx::xs("no reader/writer")]),
+    }
+}
+
+fn over_address(address: &str, chunks: Vec<Vec<u8>>) -> Sx {
+    let a = address.to_string();
+    match with_watchdog(Duration::from_secs(5), move || varlink::Connection::with_address(&a)) {
+        None => sx::tagged("timeout", vec![]),
+        Some(Err(e)) => sx::tagged("fail", vec![sx::xs(&format!("{:?}", e.kind()))]),
+        Some(Ok(c)) => exchange_conn(c, chunks),
+    }
+}
+
+fn act_sx(dump: Option<serde_json::Value>, conn_address: &str, child_pid: u32) -> Sx {
+    let d = match dump {
+        None => return sx::tagged("noact", vec![]),
+        Some(d) => d,
+    };
+    let env = |k: &str| d["env"][k].as_str().unwrap_or("<unset>").to_string();
+    let pid = d["pid"].as_u64().unwrap_or(0);
+    let fd3 = &d["fds"]["3"];
+    let fd3_ok = fd3["kind"] == "socket" && fd3["listening"] == true && fd3["family"] == "unix" && fd3["cloexec"] == false;
+    let fd3_name = fd3["name"].as_str().unwrap_or("?");
+    sx::tagged(
+        "act",
+        vec![
+            sx::xs(&env("LISTEN_FDS")),
+            sx::xs(&env("LISTEN_FDNAMES")),
+            sx::boolean(env("LISTEN_PID") == format!("{}", pid) && pid == child_pid as u64),
+            sx::boolean(env("VARLINK_ADDRESS") == format!("unix:{}", fd3_name)),
+            sx::boolean(fd3_ok),
+            sx::boolean(env("VARLINK_ADDRESS") == conn_address),
+        ],
+    )
+}
+
+fn kill_child_of(conn: &std::sync::Arc<std::sync::RwLock<varlink::Connection>>) -> Option<ChildGuard> {
+    conn.write().unwrap().child.take().map(ChildGuard::new)
+}
+
+fn run_xport(ctx: &Ctx, l: &[Sx]) -> Sx {
+    let spec = WorldSpec::from_sx(&l[1]).expect("world");
+    let chunks: Vec<Vec<u8>> = l[2].as_list().unwrap()[1..].iter().map(|c| c.as_bytes().unwrap()).collect();
+    let sub = Subst::new(ctx, "x");
+    let specfile = format!("{}/spec", sub.dir);
+    std::fs::write(&specfile, spec.to_sx().render() + "\n").unwrap();
+    let helper = helper_path();
+    let mut res = Vec::new();
+
+    // the four plain addresses, served by threads of this process
+    let port = free_port();
+    let listen_addrs = [
+        ("unix", format!("unix:{}/u.sock", sub.dir), format!("unix:{}/u.sock", sub.dir)),
+        ("unixmode", format!("unix:{}/m.sock;mode=0666", sub.dir), format!("unix:{}/m.sock;mode=0666", sub.dir)),
+        ("abstract", format!("unix:@{}", sub.abs), format!("unix:@{};x=y", sub.abs)),
+        ("tcp", format!("tcp:127.0.0.1:{}", port), format!("tcp:127.0.0.1:{}", port)),
+    ];
+    for (tag, listen, connect) in listen_addrs.iter() {
+        let h = spawn_service(&spec, listen);
+        let r = over_address(connect, chunks.clone());
+        let failed = h.failed.lock().unwrap().clone();
+        drop(h);
+        res.push(sx::tagged(tag, vec![match failed {
+            Some(f) => sx::tagged("fail", vec![sx::xs(&format!("listen: {}", f))]),
+            None => r,
+        }]));
+    }
+
+    // socket activation
+    let dump = format!("{}/dump.json", sub.dir);
+    let cmdline = format!("{} serve {} $VARLINK_ADDRESS --idle 2 --dump {}", helper, specfile, dump);
+    let act;
+    match with_watchdog(Duration::from_secs(8), move || varlink::Connection::with_activate(&cmdline)) {
+        None => {
+            res.push(sx::tagged("activate", vec![sx::tagged("timeout", vec![])]));
+            act = sx::tagged("noact", vec![]);
+        }
+        Some(Err(e)) => {
+            res.push(sx::tagged("activate", vec![sx::tagged("fail", vec![sx::xs(&format!("{:?}", e.kind()))])]));
+            act = sx::tagged("noact", vec![]);
+        }
+        Some(Ok(conn)) => {
+            let guard = kill_child_of(&conn);
+            let child_pid = guard.as_ref().and_then(|g| g.child.as_ref().map(|c| c.id())).unwrap_or(0);
+            let address = conn.read().unwrap().address();
+            let r = exchange_conn(conn, chunks.clone());
+            res.push(sx::tagged("activate", vec![r]));
+            act = act_sx(read_dump(&dump, Duration::from_secs(3)), &address, child_pid);
+            drop(guard);
+        }
+    }
+
+    // a bridge command: the service on stdin/stdout of `sh -c`
+    let cmdline = format!("exec {} stdio {}", helper, specfile);
+    match with_watchdog(Duration::from_secs(8), move || varlink::Connection::with_bridge(&cmdline)) {
+        None => res.push(sx::tagged("bridge", vec![sx::tagged("timeout", vec![])])),
+        Some(Err(e)) => res.push(sx::tagged("bridge", vec![sx::tagged("fail", vec![sx::xs(&format!("{:?}", e.kind()))])])),
+        Some(Ok(conn)) => {
+            let guard = kill_child_of(&conn);
+            let r = exchange_conn(conn, chunks.clone());
+            res.push(sx::tagged("bridge", vec![r]));
+            drop(guard);
+        }
+    }
+    res.push(act);
+    let _ = std::fs::remove_dir_all(&sub.dir);
+    sx::tagged("xport", res)
+}
+
+// ---------------------------------------------------------------------------
+// generators
+
+fn parse_case(address: &str, live: &[(&str, &str)], bindable: &[(&str, &str)]) -> Sx {
+    let mk = |tag: &str, v: &[(&str, &str)]| {
+        let mut l = vec![sx::atom(tag)];
+        for (s, t) in v {
+            l.push(sx::list(vec![sx::atom(*s), sx::xs(t)]));
+        }
+        sx::list(l)
+    };
+    sx::tagged("parse", vec![sx::xs(address), mk("live", live), mk("bindable", bindable)])
+}
+
+fn gen_parse(rng: &mut Rng) -> (Sx, Vec<String>) {
+    // the environment of every parse case: three live targets, and the same three bindable
+    let live = [("path", "%D/s.sock"), ("abstract", "%Alive"), ("tcp", "127.0.0.1:%P")];
+    let bindable = [("tcp", "127.0.0.1:%Q"), ("tcp", "127.0.0.1:%P")];
+    let params = ["", ";mode=0666", ";", ";;", ";mode=0666;x=y", ";@", ";unix:", "; "];
+    let mut tags = Vec::new();
+    let addr: String = match rng.below(20) {
+        0..=2 => {
+            tags.push("scheme:path");
+            format!("unix:%D/{}{}", rng.pick(&["s.sock", "t.sock", "none.sock"]), rng.pick(&params))
+        }
+        3..=5 => {
+            tags.push("scheme:abstract");
+            format!("unix:@%A{}{}", rng.pick(&["live", "free", "other"]), rng.pick(&params))
+        }
+        6..=7 => {
+            tags.push("scheme:tcp");
+            format!("tcp:127.0.0.1:{}{}", rng.pick(&["%P", "%Q"]), rng.pick(&["", "", "", ";mode=0666", ";"]))
+        }
+        8 => {
+            tags.push("scheme:tcp-garbage");
+            rng.pick(&["tcp:", "tcp:;", "tcp:nohost", "tcp:127.0.0.1", "tcp:127.0.0.1:notaport", "tcp:@x", "tcp:unix:%D/s.sock"]).to_string()
+        }
+        9 => {
+            tags.push("scheme:unix-edge");
+            rng.pick(&["unix:%D/no/such/dir/s.sock", "unix:%D/s.sock\u{0}x", "unix:%D", "unix:%D/", "unix:@tcp:127.0.0.1:%P", "unix:tcp:127.0.0.1:%P", "unix:@unix:%D/s.sock", "unix:/proc/version"]).to_string()
+        }
+        10..=12 => {
+            tags.push("scheme:case-or-space");
+            let base = *rng.pick(&["unix:%D/s.sock", "unix:@%Alive", "tcp:127.0.0.1:%P"]);
+            match rng.below(6) {
+                0 => base.to_uppercase().replace("%D", "%D").replace("%P", "%P"),
+                1 => format!(" {}", base),
+                2 => base.replacen(':', "", 1),
+                3 => base.replacen(':', "::", 1),
+                4 => base.replacen(':', " :", 1),
+                _ => {
+                    let mut c: Vec<char> = base.chars().collect();
+                    c[0] = c[0].to_ascii_uppercase();
+                    c.into_iter().collect()
+                }
+            }
+        }
+        13..=15 => {
+            tags.push("scheme:other");
+            rng.pick(&[
+                "", "unix", "tcp", "udp:127.0.0.1:%P", "http://127.0.0.1:%P", "file:%D/s.sock", "%D/s.sock", "@%Alive", "uni:x", "unixx:%D/s.sock",
+                "tcpp:127.0.0.1:%P", "exec:ls", "ssh://host", ":", ";", "unix;%D/s.sock", "tcp;127.0.0.1:%P", "\u{fc}nix:%D/s.sock", "unix\u{ff1a}%D/s.sock",
+                "tc:p:127.0.0.1:%P", "bridge", "device:/dev/null",
+            ])
+            .to_string()
+        }
+        16..=17 => {
+            tags.push("scheme:prefix-mutation");
+            // drop / duplicate / replace one character of a valid prefix
+            let base = *rng.pick(&["unix:@%Alive", "unix:%D/s.sock", "tcp:127.0.0.1:%P"]);
+            let plen = base.find(':').unwrap() + 1;
+            let mut c: Vec<char> = base.chars().collect();
+            let i = rng.below(plen);
+            match rng.below(3) {
+                0 => {
+                    c.remove(i);
+                }
+                1 => {
+                    let x = c[i];
+                    c.insert(i, x);
+                }
+                _ => c[i] = *rng.pick(&['x', ':', '@', ';', 'U', ' ']),
+            }
+            c.into_iter().collect()
+        }
+        _ => {
+            tags.push("scheme:random");
+            let alphabet: Vec<char> = "unix:tcp@;/DAPQ. 0123\u{e9}".chars().collect();
+            let n = rng.below(14);
+            let mut s: String = (0..n).map(|_| *rng.pick(&alphabet)).collect();
+            // a random string that happens to be a unix address would name a path outside the
+            // scratch directory: point it into the abstract namespace instead (always bindable, never live)
+            if let Some(rest) = s.strip_prefix("unix:") {
+                if !rest.starts_with('@') {
+                    s = format!("unix:@%A{}", rest);
+                }
+            } else if let Some(rest) = s.strip_prefix("tcp:") {
+                // never a host name (no resolver in the sandbox): a numeric target made unparsable
+                s = format!("tcp:127.0.0.1:%Q;{}", rest);
+            }
+            s
+        }
+    };
+    (parse_case(&addr, &live, &bindable), tags.into_iter().map(|t| t.to_string()).collect())
+}
+
+fn actenv_case(fds: Option<&str>, pid: Sx, names: Option<&str>, passed: usize, address: &str) -> Sx {
+    sx::tagged("actenv", vec![sx::opt_str(fds), pid, sx::opt_str(names), sx::nat(passed), sx::xs(address)])
+}
+
+fn pid_self(pre: &str, suf: &str) -> Sx {
+    sx::tagged("self", vec![sx::xs(pre), sx::xs(suf)])
+}
+fn pid_lit(v: &str) -> Sx {
+    sx::tagged("lit", vec![sx::xs(v)])
+}
+
+fn gen_actenv(rng: &mut Rng) -> (Sx, Vec<String>) {
+    let fds_vals = [None, Some("0"), Some("1"), Some("1"), Some("1"), Some("2"), Some("3"), Some("+1"), Some("01"), Some("x"), Some("-1"), Some(" 1"), Some(""), Some("1 "), Some("18446744073709551616"), Some("4")];
+    let names_vals = [None, Some("varlink"), Some("varlink"), Some("a:varlink"), Some("a:b:varlink"), Some("a:b"), Some("varlink:varlink"), Some(""), Some("Varlink"), Some(":varlink"), Some("varlink:"), Some("a:b:c:varlink"), Some("x:varlinky:varlink")];
+    let fds = *rng.pick(&fds_vals);
+    let names = *rng.pick(&names_vals);
+    let pid = match rng.below(12) {
+        0 => sx::atom("-"),
+        1 => pid_lit("1"),
+        2 => pid_lit("x"),
+        3 => pid_lit(""),
+        4 => pid_self("", "0"),
+        5 => pid_self("1", ""),
+        6 => pid_self("0", ""),
+        7 => pid_self("+", ""),
+        8 => pid_self("-", ""),
+        _ => pid_self("", ""),
+    };
+    let address = *rng.pick(&["unix:%D/own.sock", "unix:%D/own.sock", "unix:@%Aown", "tcp:127.0.0.1:0", "unix:%D/own.sock;mode=0600", "bogus:%D/own.sock", "", "unix", "tcp"]);
+    let mut tags = vec![
+        format!("fds:{}", fds.unwrap_or("absent")),
+        format!("names:{}", names.unwrap_or("absent")),
+        format!("addr:{}", address.split(':').next().unwrap_or("")),
+    ];
+    tags.push(format!("pid:{}", match &pid {
+        Sx::Atom(_) => "absent".to_string(),
+        Sx::List(l) => format!("{}{}", l[0].as_atom().unwrap(), l[1..].iter().map(|x| format!("/{}", x.as_str().unwrap())).collect::<String>()),
+    }));
+    (actenv_case(fds, pid, names, 4, address), tags)
+}
+
+pub fn xport_case(spec: &WorldSpec, chunks: &[Vec<u8>], total: &[u8]) -> Sx {
+    let mut rl = vec![sx::atom("reads")];
+    rl.extend(chunks.iter().map(|c| sx::bs(c)));
+    sx::tagged("xport", vec![spec.to_sx(), sx::list(rl), wire::dec_table(total)])
+}
+
+fn gen_xport(rng: &mut Rng, tok: &mut usize, thorough: bool) -> (Sx, Vec<String>) {
+    let cfgs = wire::configs();
+    let cfg = rng.pick(&cfgs);
+    let len = match rng.below(10) {
+        0 => 0,
+        1..=3 => 1,
+        4..=7 => rng.range(2, 5),
+        _ => rng.range(6, if thorough { 40 } else { 14 }),
+    };
+    let mut reqs = Vec::new();
+    let mut tags: Vec<String> = vec!["kind:xport".into()];
+    let bad_at = if rng.chance(1, 6) && len > 0 { rng.below(len) } else { usize::MAX };
+    for i in 0..len {
+        *tok += 1;
+        let t = format!("t{}z", tok);
+        let r = if i == bad_at { wire::gen_malformed(rng, cfg, &t) } else { wire::gen_request(rng, cfg, &t) };
+        tags.push(format!("req:{}", r.kind.split(':').next().unwrap_or("").split('+').next().unwrap_or("")));
+        for part in r.kind.split('+').skip(1) {
+            tags.push(format!("flag:{}", part));
+        }
+        reqs.push(r);
+    }
+    let mut total = wire::stream_of(&reqs);
+    if rng.chance(1, 8) {
+        total.extend_from_slice(b"{\"method\":\"org.varlink.serv");
+        tags.push("dangling".into());
+    }
+    if rng.chance(1, 25) {
+        let pad = "x".repeat(*rng.pick(&[8190usize, 8193, 70000]));
+        let big = serde_json::json!({"method":"org.varlink.service.GetInfo","parameters":{"pad":pad}});
+        total.extend_from_slice(&serde_json::to_vec(&big).unwrap());
+        total.push(0);
+        tags.push("oversize".into());
+    }
+    let chunks: Vec<Vec<u8>> = match rng.below(4) {
+        0 => vec![total.clone()],
+        1 => {
+            let a = rng.below(total.len() + 1);
+            let b = rng.below(total.len() + 1);
+            wire::cut(&total, &[a, b])
+        }
+        2 => {
+            let nuls: Vec<usize> = total.iter().enumerate().filter(|(_, b)| **b == 0).map(|(i, _)| i + 1).collect();
+            wire::cut(&total, &nuls)
+        }
+        _ => {
+            let k = rng.range(1, 6);
+            let cs: Vec<usize> = (0..k).map(|_| rng.below(total.len() + 1)).collect();
+            wire::cut(&total, &cs)
+        }
+    };
+    tags.sort();
+    tags.dedup();
+    (xport_case(&WorldSpec::plain(cfg.sx.clone()), &chunks, &total), tags)
+}
+
+impl Suite for AddrSuite {
+    fn generate(&self, ctx: &Ctx) -> Vec<Case> {
+        let mut rng = Rng::new(ctx.seed ^ 0xadd2);
+        let mut cases = Vec::new();
+        if let Ok(txt) = std::fs::read_to_string(concat!(env!("CARGO_MANIFEST_DIR"), "/corpus/addr.txt")) {
+            for l in txt.lines() {
+                if let Some(s) = sx::parse(l) {
+                    cases.push(Case { input: s, tags: vec!["corpus".into()] });
+                }
+            }
+        }
+        let (n_parse, n_env, n_xport) = if ctx.thorough { (3000, 1000, 600) } else { (500, 100, 140) };
+        for _ in 0..n_parse {
+            let (c, mut tags) = gen_parse(&mut rng);
+            tags.push("kind:parse".into());
+            cases.push(Case { input: c, tags });
+        }
+        for _ in 0..n_env {
+            let (c, mut tags) = gen_actenv(&mut rng);
+            tags.push("kind:actenv".into());
+            cases.push(Case { input: c, tags });
+        }
+        // the systematic activation matrix
+        for fds in [None, Some("0"), Some("1"), Some("3")] {
+            for pid in [sx::atom("-"), pid_self("", ""), pid_lit("1"), pid_self("", "0"), pid_self("0", "")] {
+                for names in [None, Some("varlink"), Some("a:varlink"), Some("a:b")] {
+                    for address in ["unix:%D/own.sock", "tcp:127.0.0.1:0", "bogus:%D/own.sock"] {
+                        cases.push(Case {
+                            input: actenv_case(fds, pid.clone(), names, 4, address),
+                            tags: vec!["kind:actenv".into(), "actenv:matrix".into()],
+                        });
+                    }
+                }
+            }
+        }
+        let mut tok = 0usize;
+        for _ in 0..n_xport {
+            let (c, tags) = gen_xport(&mut rng, &mut tok, ctx.thorough);
+            cases.push(Case { input: c, tags });
+        }
+        cases
+    }
+
+    fn run(&self, ctx: &Ctx, input: &Sx) -> Sx {
+        let l = input.as_list().expect("case");
+        match l[0].as_atom().unwrap_or("") {
+            "parse" => run_parse(ctx, l),
+            "actenv" => run_actenv(ctx, l),
+            "xport" => run_xport(ctx, l),
+            other => panic!("case kind {}", other),
+        }
     }
 }
